@@ -577,6 +577,14 @@ fn observe_all(kb: &KnowledgeBase, m: &mut Model, after: &'static str, step: At)
             }
         }
     }
+    // a third listing: get_rules_snapshot
+    let snap: Vec<RObs> = kb.get_rules_snapshot().iter().map(obs).collect();
+    if snap != m.listing() {
+        return Some(Verdict::fail(
+            format!("snapshot-listing@{}", after),
+            format!("{}: get_rules_snapshot() = {}, model listing {}", step, fmt_rules(&snap), fmt_rules(&m.listing())),
+        ));
+    }
     None
 }
 
